@@ -138,6 +138,9 @@ pub fn run<T: Elt>(kind: &str, a: &mut Args, out: &mut Out) {
             // dividend and divisor the SAME object: a shortcut keyed on pointer equality must agree with the general
             // routine (in particular x.polydiv(&x) of the empty / all-zero polynomial is still the zero-divisor error)
             for (w, nm) in [(&u, "u"), (&v, "v")] {
+                // (a non-zero polynomial with a vanishing leading coefficient is outside the claim as a divisor)
+                let n = w.size();
+                if n > 0 && w[n - 1] == T::zero() && (0..n).any(|i| w[i] != T::zero()) { continue; }
                 let (mut o1, mut o2) = (Out::new(), Out::new());
                 guarded(&mut o1, |o| div_out(w.polydiv(w), o));              // (a panic of the library is part of the outcome)
                 guarded(&mut o2, |o| div_out(w.polydiv(&w.clone()), o));
